@@ -5,7 +5,7 @@
    error travelling up -- never escapes), Fatal (FErr ..) (a pybtex error left the reader),
    Fatal FCrash (a foreign Python exception), Fatal FFuel (the model ran out of fuel). *)
 From Pybtex Require Import Base.Prelude Base.PyChar Base.PyStr Model.BibtexStr Model.Names
-  Model.Scanner Model.BibParser Proofs.Scanner Proofs.BibParser Proofs.BibStrict Proofs.BibStrictFirst Proofs.BibValues Proofs.BibEntry.
+  Model.Scanner Model.BibParser Model.BibParserOpt Proofs.Scanner Proofs.BibParser Proofs.BibStrict Proofs.BibStrictFirst Proofs.BibValues Proofs.BibEntry Proofs.BibParserOpt Proofs.BibStrictOpt.
 
 (* TOTALITY: for every text whatsoever and every reporting mode, reading terminates within
    the model's fuel (|text|+1 per loop), raises no foreign exception (IndexError in
@@ -100,6 +100,38 @@ Theorem prefix_confinement_wellformed_partial : forall m es b d s, Forall (wf_se
 Proof. exact prefix_confinement_lowlevel. Qed.
 Print Assumptions prefix_confinement_wellformed_partial.
 
+(* ---- the same for the reader WITH OPTIONS (Model/BibParserOpt.v):
+   Parser(wanted_entries=..., keyless_entries=..., macros=..., person_fields=...) -- for EVERY
+   option set o: totality (no foreign exception -- e.g. no AttributeError from want_entry on a
+   missing key --, no hang, no escaping raw syntax error), located syntax errors, and
+   non-strict = capture *)
+Theorem parse_bib_total_options : forall o m text,
+  parse_bib_o o m text <> Fatal FCrash /\ parse_bib_o o m text <> Fatal FFuel /\ (forall e s, parse_bib_o o m text <> Exc e s).
+Proof. exact parse_bib_o_total. Qed.
+Print Assumptions parse_bib_total_options.
+
+Theorem errors_located_options : forall o m text d s, parse_bib_o o m text = Ret d s ->
+  forall e, In e (p_errs s) ->
+    if N.leb (e_cls e) 5
+    then e_line e = (1 + newlines (firstn (e_pos e) text))%Z
+         /\ e_start e < e_pos e <= length text /\ nth_error text (e_start e) = Some 64%N
+    else e_line e = (-1)%Z.
+Proof. exact parse_bib_o_located. Qed.
+Print Assumptions errors_located_options.
+
+Theorem capture_equals_nonstrict_options : forall o text, parse_bib_o o NonStrict text = parse_bib_o o Capture text.
+Proof. exact parse_bib_o_ns. Qed.
+Print Assumptions capture_equals_nonstrict_options.
+
+Theorem strict_raises_first_options : forall o text,
+  (forall d s, parse_bib_o o Capture text = Ret d s -> p_errs s = [] -> parse_bib_o o Strict text = Ret d s) /\
+  (forall c l d s, parse_bib_o o Strict text = Fatal (FErr c l) -> parse_bib_o o Capture text = Ret d s ->
+     exists e rest, p_errs s = e :: rest /\ e_cls e = c /\ e_line e = l) /\
+  (forall d s, parse_bib_o o Strict text = Ret d s -> parse_bib_o o Capture text = Ret d s /\ p_errs s = []) /\
+  (forall d s, parse_bib_o o Capture text = Ret d s -> p_errs s <> [] -> exists c l, parse_bib_o o Strict text = Fatal (FErr c l)).
+Proof. exact strict_first_o. Qed.
+Print Assumptions strict_raises_first_options.
+
 (* non-vacuity *)
 Definition ex_text : str := s2l "@a{k, t = {x} # y}
 @b{k2, t = ""u} @c{k3,".
@@ -110,6 +142,12 @@ Example ex_reads_with_errors :
   end = (3, [(5%N, 1%Z); (4%N, 2%Z); (1%N, 2%Z)]).
 Proof. vm_compute. reflexivity. Qed.
 Example ex_strict_raises : parse_bib Strict ex_text = Fatal (FErr 5 1).
+Proof. vm_compute. reflexivity. Qed.
+Example ex_options :
+  match parse_bib_o (mkOpts (Some [s2l "K2"]) true [] [s2l "Title"]) Capture (s2l "@string{a = und}@a{t = 1, title = {X and Y}}@b{k2}") with
+  | Ret d s => (map (fun e => (en_key e, length (en_persons e))) (db_entries (d_db d)), map (fun e => e_cls e) (p_errs s))
+  | _ => ([], [])
+  end = ([], [5%N; 2%N]).
 Proof. vm_compute. reflexivity. Qed.
 Example ex_nesting :
   match parse_bib Capture (s2l "@a{k, t = " ++ repeat c_lbrace 102) with
